@@ -133,9 +133,19 @@ def Source.kernedGroupOf (s : Source) (side : Side) (g : Nat) : Option Nat :=
   | some G => if (s.kernedNames side).contains G then some G else none
   | none => none
 
-/-- Every glyph that is in some group of that side in some source. -/
+/-- Stable insertion sort (structural recursion, so closed instances evaluate in the kernel); for a total
+    preorder it returns what Rust's stable `sort` returns. -/
+def insertBy {α} (le : α → α → Bool) (x : α) : List α → List α
+  | [] => [x]
+  | y :: ys => if le x y then x :: y :: ys else y :: insertBy le x ys
+
+def insertSort {α} (le : α → α → Bool) : List α → List α
+  | [] => []
+  | x :: xs => insertBy le x (insertSort le xs)
+
+/-- Every glyph that is in some group of that side in some source, in glyph order (the member sets are `BTreeSet`s). -/
 def sideGlyphs (srcs : List Source) (side : Side) : List Nat :=
-  (srcs.flatMap fun s => (s.groups side).flatMap (·.2)).eraseDups
+  insertSort (fun a b => decide (a ≤ b)) (srcs.flatMap fun s => (s.groups side).flatMap (·.2)).eraseDups
 
 /-- `SideState::all_members[G]` (:454): union over the sources of the glyphs whose group is `G`. -/
 def allMembers (srcs : List Source) (side : Side) (G : Nat) : List Nat :=
@@ -329,7 +339,7 @@ def ClassSub.eval (t : ClassSub) (i : Nat) (g₁ g₂ : Nat) : Option Int :=
 /-- The pairs in the order `PairPosBuilder` receives them: sorted (kern.rs:836, again :1541), zero class/class
     pairs removed (:1227). -/
 def ordered (ps : List EPair) : List EPair :=
-  (ps.mergeSort EPair.le).filter fun p => !(p.isCC && p.allZero)
+  (insertSort EPair.le ps).filter fun p => !(p.isCC && p.allZero)
 
 /-- The adjustment (in font units, at master `i`) the kern lookup applies to the ordered glyph pair (g₁, g₂).
     Glyph pairs (format 1, which precede the class subtables in the lookup): the first pair inserted for (g₁, g₂)
@@ -350,5 +360,12 @@ def validGroups : Groups → Bool
   | p :: rest => (rest.all fun q => p.2.all fun g => !q.2.contains g) && validGroups rest
 
 def Source.valid (s : Source) : Bool := validGroups s.groups1 && validGroups s.groups2
+
+/-- Every glyph whose group differs between sources sits, in every source, in a group that source's kerning
+    references (or in none).  This is the hypothesis `reconcile_correct` needs; see FontcProps/C09.lean. -/
+def kernedWhereDivergent (srcs : List Source) : Bool :=
+  [Side.first, Side.second].all fun side =>
+    (sideGlyphs srcs side).all fun g =>
+      !isDivergent srcs side g || srcs.all fun s => s.kernedGroupOf side g == s.groupOf side g
 
 end Fontc.Kern
